@@ -142,6 +142,11 @@ pub fn family_jobs(tier: Tier, families: &[&str]) -> (Vec<Job>, serde_json::Valu
         jobs.extend(js);
         plan.insert("T".into(), pl);
     }
+    if families.contains(&"X") {
+        let (js, pl) = crate::fam_x::family_x_jobs(tier);
+        jobs.extend(js);
+        plan.insert("X".into(), pl);
+    }
     if families.contains(&"D") {
         let (js, pl) = crate::fam_d::family_d_jobs(tier);
         jobs.extend(js);
@@ -152,13 +157,13 @@ pub fn family_jobs(tier: Tier, families: &[&str]) -> (Vec<Job>, serde_json::Valu
 
 pub fn attribution_for(j: &Job) -> Attribution {
     match j.family {
-        "S" | "T" => Attribution { value: vec!["C01", "C14"], panic: vec!["C02"], ..Attribution::standard() },
+        "S" | "T" | "X" => Attribution { value: vec!["C01", "C14"], panic: vec!["C02"], ..Attribution::standard() },
         "D" => Attribution { expect_zero_and: true, ..Attribution::standard() },
         _ => Attribution::standard(),
     }
 }
 
-pub const FAMILY_RULE: &str = "family E: every typed expression tree with exactly k operator nodes (8 arithmetic/bit ops, shifts, 6 comparisons, && ||, - !, casts among 6 types, if, match, let-block, call) over leaves {x, y, boundary literals}, for (x,y) in u8^2 and i8^2; family S: every sequence of <=n statement templates (27 simple: plain/op-assignment through 0-2 accessors with constant and input-dependent indices, aggregate copies, shadowing, calls mutating their parameter, side-effecting operand blocks; compound: if / if-else / match / for / for-range / block / for-join / nested if-in-for with bodies from a core set) over 7 variables, returning all of them; family P: every sequence of <=n (failing-operation site x conditional wrapper) pairs incl. verbatim repeats and constant-foldable sites; every program is compiled by the real compiler in each configuration and evaluated by the real evaluator on every input of its input set; oracle = reference interpreter (value, panic reason, panic location); non-trivial = program with >=2 distinct observed outputs";
+pub const FAMILY_RULE: &str = "family E: every typed expression tree with exactly k operator nodes (8 arithmetic/bit ops, shifts, 6 comparisons, && ||, - !, casts among 6 types, if, match, let-block, call) over leaves {x, y, boundary literals}, for (x,y) in u8^2 and i8^2; family S: every sequence of <=n statement templates (27 simple: plain/op-assignment through 0-2 accessors with constant and input-dependent indices, aggregate copies, shadowing, calls mutating their parameter, side-effecting operand blocks; compound: if / if-else / match / for / for-range / block / for-join / nested if-in-for with bodies from a core set) over 7 variables, returning all of them; family X: an effect block (assigns to a mutable variable of main and/or fails, then yields a value) placed in every expression position - if condition, match scrutinee, either operand of every operator, call argument, aggregate literal element, index, cast, let initialiser, assignment right-hand side, loop iterable - including positions whose value does not depend on it (0*H, H&0, (H,7).1, if true {..}, ...) and pairs of sibling blocks (evaluation order); family P: every sequence of <=n (failing-operation site x conditional wrapper) pairs incl. verbatim repeats and constant-foldable sites; every program is compiled by the real compiler in each configuration and evaluated by the real evaluator on every input of its input set; oracle = reference interpreter (value, panic reason, panic location); non-trivial = program with >=2 distinct observed outputs";
 
 pub fn coverage_json(fr: &FamilyRun, rule: &str, budget: &Budget) -> serde_json::Value {
     json!({
@@ -198,5 +203,5 @@ pub fn run_shared(property: &'static str, tier: Tier, families: &[&str], extra_a
 }
 
 pub fn run(tier: Tier) -> i32 {
-    run_shared("C01", tier, &["E", "S", "T", "P"], vec![])
+    run_shared("C01", tier, &["E", "S", "T", "P", "X"], vec![])
 }
